@@ -21,7 +21,7 @@ structure AcceptFacts (pol : Policy) (c : Chain) (s : Pool) (t : TxAbs) (isNew r
   std : pol.acceptNonStd = true ∨ t.std = true
   seqLock : seqLocksOk c t = true
   sig : t.sigOk = true
-  fee : relayFeeMet pol t isNew rl = true
+  fee : relayFeeMet pol c t isNew rl = true
   scripts : t.scriptsOk = true
   repl : (checkPoolDoubleSpend pol s t = some false ∧ cs = []) ∨
          (checkPoolDoubleSpend pol s t = some true ∧ validateReplacement pol s t = .ok cs)
@@ -46,7 +46,7 @@ theorem checkTail_ok_inv {pol : Policy} {s : Pool} {t : TxAbs} {isRepl : Bool} {
 theorem checkInputs_ok_inv {pol : Policy} {c : Chain} {s : Pool} {t : TxAbs} {isNew rl isRepl : Bool}
     {cs : List TxAbs} (h : checkInputs pol c s t isNew rl isRepl = .ok cs) :
     (∀ x ∈ t.ins, immature c x = false) ∧ t.valuesOk = true ∧ (pol.acceptNonStd = true ∨ t.std = true) ∧
-    seqLocksOk c t = true ∧ t.sigOk = true ∧ relayFeeMet pol t isNew rl = true ∧
+    seqLocksOk c t = true ∧ t.sigOk = true ∧ relayFeeMet pol c t isNew rl = true ∧
     checkTail pol s t isRepl = .ok cs := by
   unfold checkInputs at h
   split at h
